@@ -22,6 +22,16 @@ abstract DOM (snapshot of the real parse of the real HTML), the parsed document.
 round-trip theorem (faithful rules + whitespace-normal text) implies that the real round trip is the identity; cases are counted per
 node kind (`roundtrip_kind:*`).  Theorem: roundtrip (rtOk R D doc -> roundTrip R D doc = ok doc; Props/C19.lean), with the
 roundtrip_*_partial theorems as its lemmas; every `rtOk` case of the tie is an instance of it.
+Bundled schemas as data (harness/rt_tables.py, lean/Gen/RoundTrip.lean, lean/Family/C19RoundTrip.lean): the parse rules in restricted
+form and the `toDOM` functions of the basic and list schemas are read off the running library as tables (`toDOM` by probing with marker
+attribute values, plus the attribute patterns where the function branches); the translator writes them as Lean literals (`rBasic`,
+`dtBasic`, …) and the family phase has the kernel decide the schema part `rtSchemaOk` of the theorem's hypothesis for them
+(`basic_rtSchemaOk`, `list_rtSchemaOk`), which closes the theorem to `roundtrip_basic / roundtrip_list : rtDocOk … doc → roundTrip … doc
+= ok doc`.  The round-trip requests of this check carry *these tables* (not per-document outputs): `roundtrip_schema_tie` checks that the
+generated file is the rendering of the request tables and that the driver's `rtSchemaOk` is what the generated theorem states; per
+document the tables are compared with the real `toDOM` outputs of every node and mark (`todom_template:*`) and with the rules of the
+recorded real parse, the driver evaluates the document part `rtDocOk` (= `rtOk` under the schema part), and `rtDocOk` with the real
+HTML equal to the tables' HTML but a real round trip that is not the identity is a VIOLATION (`roundtrip-theorem`).
 Search (named as such): termination (per-call alarm) and no-crash of lxml / cssselect / `re` on generated HTML; validity of the parsed
 document (check() + independent validator); context-restricted rules apply exactly where the open
 ancestors match; serialise → parse round trip on whitespace-normal documents of the bundled schemas.
